@@ -11,6 +11,8 @@ Inductive tdesc :=
 | TNil
 | TSub (id : nat)            (* the value the harness built at the node with this id *)
 | TFresh (k : N) (i : nat)   (* a value of kind k that is not part of the chain *)
+| TTwin (id : nat)           (* the hand-made wrapper at node id built a SECOND time: identical fields and
+                                inner values, but new allocations — a look-alike, not part of the chain *)
 | TUncmp.
 
 Fixpoint find_sub (id : nat) (d : desc) : option desc :=
@@ -26,12 +28,14 @@ Definition tbuild (d : desc) (t : tdesc) : err :=
   | TSent s => ESent s
   | TNil => ENil
   | TSub id => match find_sub id d with Some d' => build d' | None => EVal 424242 end
+  | TTwin id => match find_sub id d with Some d' => retag 3000 (build d') | None => EVal 424243 end
   | TFresh k i =>
-      if k =? 0 then ELib (5000 + i) (ESent (SOther 77))
-      else if k =? 1 then EFmt (5000 + i) (ESent (SOther 77))
-      else if k =? 2 then EPtrNoErr (5000 + i)
+      if k =? 0 then ELib (2000 + i) (ESent (SOther 77))
+      else if k =? 1 then EFmt (2000 + i) (ESent (SOther 77))
+      else if k =? 2 then EPtrNoErr (2000 + i)
       else if k =? 3 then EVal 99
-      else EConn (5000 + i) 1 (ESent SConnectionFailed)
+      else if k =? 5 then EVal (100000 + N.of_nat i)   (* a struct value holding its own pointer: == only to itself *)
+      else EConn (2000 + i) 1 (ESent SConnectionFailed)
   | TUncmp => EUncmp 7
   end.
 
@@ -40,14 +44,16 @@ Definition res_code (r : res) : N := match r with RFalse => 0 | RTrue => 1 | RPa
 (* the targets every case is evaluated against, in this order: the 15 documented sentinels, three
    foreign errors.New values, nil, five values that are not part of the chain, an uncomparable value *)
 Definition std_targets : list tdesc :=
-  map TSent documented_sentinels ++ [TSent (SOther 0); TSent (SOther 1); TSent (SOther 2); TNil;
-   TFresh 0 0; TFresh 1 1; TFresh 2 2; TFresh 3 3; TFresh 4 4; TUncmp].
+  map TSent documented_sentinels ++ [TSent (SOther 0); TSent (SOther 1); TSent (SOther 2)]
+  ++ map (fun s => TSent (twin_of s)) documented_sentinels     (* foreign errors.New values with the sentinels' texts *)
+  ++ [TNil; TFresh 0 0; TFresh 1 1; TFresh 2 2; TFresh 3 3; TFresh 4 4; TFresh 5 5; TUncmp].
 
 (* one case: how the value was built; errors.Is against each standard target (0 false, 1 true,
    2 panic); errors.Is against the values built at the listed nodes of the description itself;
    then [errors.As RequestTimeoutError; As ErrorWithRetry; As ConnectionError; As Error;
    err.(ErrorWithRetry); err == io.EOF] *)
-Definition chain_case := (desc * list N * list (nat * N) * list bool * list N)%type.
+Definition chain_case := (desc * list N * list (nat * N) * list bool * list N * list (nat * N))%type.
+(* very last component: errors.Is against second builds (TTwin) of hand-made wrapper nodes *)
 (* last component: the Is method called directly against the standard targets; [] if the value has none *)
 
 Definition as_kinds : list askind := [AsReqTimeout; AsWithRetry; AsConn; AsLib].
@@ -55,8 +61,8 @@ Definition bool_list_eqb := list_eqb Bool.eqb.
 Definition n_list_eqb := list_eqb N.eqb.
 
 Definition targets_of (c : chain_case) : list (tdesc * N) :=
-  let '(d, std, subs, flags, meth) := c in
-  combine std_targets std ++ map (fun p => (TSub (fst p), snd p)) subs.
+  let '(d, std, subs, flags, meth, twins) := c in
+  combine std_targets std ++ map (fun p => (TSub (fst p), snd p)) subs ++ map (fun p => (TTwin (fst p), snd p)) twins.
 
 Definition method_codes (d : desc) : list N :=
   let e := build d in
@@ -66,7 +72,7 @@ Definition method_codes (d : desc) : list N :=
   end.
 
 Definition chain_model_ok (c : chain_case) : bool :=
-  let '(d, std, subs, flags, meth) := c in
+  let '(d, std, subs, flags, meth, twins) := c in
   let e := build d in
   (length std =? length std_targets)%nat
   && forallb (fun tn => res_code (errors_is e (tbuild d (fst tn))) =? snd tn) (targets_of c)
@@ -126,11 +132,14 @@ Definition sent_target_ok (d : desc) (tn : tdesc * N) : bool :=
       && (if shaped d then snd tn =? (if leaf_is s (spec_leaf d) then 1 else 0) else true)
       (* also through foreign wrappers exposing an Err field below a library wrapper *)
       && (if hand_made d && ext_chain (build d) then snd tn =? (if occurs_sent s (build d) then 1 else 0) else true)
+  (* a value that is not part of the chain — made afresh, or a second build of one of the chain's own
+     wrappers, equal in content — is never reported (and on property-shaped chains nothing panics) *)
+  | TFresh _ _ | TTwin _ => negb (snd tn =? 1) && (if shaped d then snd tn =? 0 else true)
   | _ => true
   end.
 
 Definition chain_spec_ok (c : chain_case) : bool :=
-  let '(d, std, subs, flags, meth) := c in
+  let '(d, std, subs, flags, meth, twins) := c in
   forallb (sent_target_ok d) (targets_of c)
   && forallb (sent_target_ok d) (combine std_targets meth)     (* the Is method itself must say the same *)
   && (if shaped d then
